@@ -144,8 +144,8 @@ static void sw_violation(const uint8_t *bytes, int n, const char *setvars)
         FILE *f = fopen(SW.replay, "w");
         if (!f) mcx_fatal("cannot write %s", SW.replay);
         fprintf(f, "# sweep replay file (%s)\nmode feed\nring 1\n", SW.name);
-        fprintf(f, "argv '--prop' '%s' '--table' '%s' '--cap' '%d' '--shared' '%d' '--ubuf' '%d' '--line-max' '%d' '--mon' 'ALL' '--tok' '%d' '--varcb-fail' '0' '--feed-hex' '%s'%s%s %s\n", SW.prop, tb, W.cap,
-                W.shared, W.ubuf_size, W.line_max, W.tok_mode, hx, setvars && *setvars ? " '--setvars' '" : "", setvars && *setvars ? setvars : "", setvars && *setvars ? "'" : "");
+        fprintf(f, "argv '--prop' '%s' '--table' '%s' '--cap' '%d' '--shared' '%d' '--ubuf' '%d' '--line-max' '%d' '--mon' 'ALL' '--tok' '%d' '--varcb-fail' '0' '--wo-fill' '%d' '--var-init' '%d' '--str-full' '%d' '--interfere' '%d' '--feed-hex' '%s'%s%s %s\n", SW.prop, tb, W.cap,
+                W.shared, W.ubuf_size, W.line_max, W.tok_mode, W.wo_fill, W.var_init, W.str_full, W.interfere, hx, setvars && *setvars ? " '--setvars' '" : "", setvars && *setvars ? setvars : "", setvars && *setvars ? "'" : "");
         if (SW.extra[0]) fprintf(f, "note %s\n", SW.extra);
         fprintf(f, "prop %s\nmsg %s\ninput %s\n", SW.prop, SW.msg, esc);
         fclose(f);
